@@ -192,6 +192,13 @@ def mergePoint (value c0 c1 : R) : List R → List (P2 R) → List R × List (P2
   | vs, _ => (vs ++ [value], [⟨c0, c1⟩])
 -- note: the second clause is only reached with both lists exhausted (they have equal length by construction)
 
+/-- a value that the schema admits (`anyOf [number, array of points]` for both items of an entry) but that the reader accesses with the other accessor:
+rapidjson's own assertion (`IsNumber()`, `IsArray()`) fires, which the library turns into an exception of class `other` -/
+def asOther {α : Type} (x : Except Err α) : Except Err α :=
+  match x with
+  | .ok a => .ok a
+  | .error _ => .error .other
+
 /-- `Parameters::get(name, addition_points)`: (values, points) for a `OneOf(Double, Array(ValueAtPoints))` entry -/
 def Cur.getValueAtPoints (c : Cur) (name : String) (spherical : Bool) (corners : List (P2 R)) : Except Err (List R × List (P2 R)) :=
   match c.val? name with
@@ -209,7 +216,7 @@ def Cur.getValueAtPoints (c : Cur) (name : String) (spherical : Bool) (corners :
     if single then do
       match first with
       | some e => match e[0]? with
-        | some v => return ([← jnum v], [])
+        | some v => return ([← asOther (jnum v)], [])
         | none => .error .internal
       | none => .error .internal
     else do
@@ -217,11 +224,11 @@ def Cur.getValueAtPoints (c : Cur) (name : String) (spherical : Bool) (corners :
       arr.toList.foldlM (fun (acc : List R × List (P2 R)) item => do
         let e ← jarr item
         let value : R ← (match e[0]? with
-          | some v => jnum v
+          | some v => asOther (jnum v)
           | none => .error .internal)
         match e[1]? with
         | some pts => do
-          (← jarr pts).toList.foldlM (fun (acc : List R × List (P2 R)) pj => do
+          (← asOther (jarr pts)).toList.foldlM (fun (acc : List R × List (P2 R)) pj => do
             -- `WBAssertThrow(… /0 and /1 exist …)`: a point needs two entries (fixed upstream: the missing one was a null dereference)
             if (← jarr pj).size < 2 then .error .other
             let p : P2 R ← jpoint2 pj
